@@ -8,7 +8,8 @@ import itertools
 import random
 import re
 
-from .common import Clause, run_parallel
+from .common import Clause
+from .c03_tags import run_parallel_sorted
 
 ALPHA = 'a{}[]()$#*\\>+^."\' /=' + 'é\U0001F600'
 UNQUOTED_ALPHA = 'a1()[]>+^.#/-:*'
@@ -350,7 +351,7 @@ def run(tier, seed):
                 'payload length <= %d in all templates, <= %d in template leaf or children (alternating); output.format off' % (la, ll),
                 'a case is (template, payload); output must equal the template output with the payload read per statement '
                 '(escapes resolved, everything else verbatim; `$` runs -> digits, `$#` -> empty or verbatim)', exhaustive=True)
-    run_parallel(c1, 'bounded.c04', 'check_inline', inline_cases(la, ll), chunk=2000)
+    run_parallel_sorted(c1, 'bounded.c04', 'check_inline', inline_cases(la, ll), chunk=2000)
     c1.done()
 
     al = 3 if quick else 4
@@ -359,8 +360,8 @@ def run(tier, seed):
                 'unquoted value over %r with balanced parentheses in p[t=...]' % ({k: v[0] for k, v in ATTR_TEMPLATES.items()}, UNQUOTED_ALPHA),
                 'payload length <= %d (quoted, expression), <= %d (unquoted)' % (al, al + 1),
                 'a case is (template, payload); the value must appear verbatim between the quotes / braces', exhaustive=True)
-    run_parallel(c2, 'bounded.c04', 'check_attr', attr_cases(al), chunk=2000)
-    run_parallel(c2, 'bounded.c04', 'check_unquoted', unquoted_cases(al + 1), chunk=2000)
+    run_parallel_sorted(c2, 'bounded.c04', 'check_attr', attr_cases(al), chunk=2000)
+    run_parallel_sorted(c2, 'bounded.c04', 'check_unquoted', unquoted_cases(al + 1), chunk=2000)
     c2.done()
 
     ml = 2 if quick else 3
@@ -371,7 +372,7 @@ def run(tier, seed):
                 % (ml, ml + 1, 3 if quick else 4, 3000 if quick else 100000),
                 'a case is (template, list of lines); expected output = one copy per non-blank line, trimmed line verbatim at every $# '
                 'or appended to the deepest last element', exhaustive=False)
-    run_parallel(c3, 'bounded.c04', 'check_wrap_implicit', implicit_cases(rng, ml + 1, 3000 if quick else 100000, 3 if quick else 4), chunk=2000)
+    run_parallel_sorted(c3, 'bounded.c04', 'check_wrap_implicit', implicit_cases(rng, ml + 1, 3000 if quick else 100000, 3 if quick else 4), chunk=2000)
     c3.done()
 
     c4 = Clause('wrap-whole-text', 'B',
@@ -379,14 +380,14 @@ def run(tier, seed):
                 'lists of <= %d lines, single strings from the pool and all strings of length <= 2 over the alphabet; %d random texts' % (ml, 2000 if quick else 50000),
                 'a case is (template, text); the whole text must be the content of the deepest last element exactly once '
                 '(white space at line ends not compared for multi-line text)', exhaustive=False)
-    run_parallel(c4, 'bounded.c04', 'check_wrap_whole', whole_cases(rng, ml, 2000 if quick else 50000), chunk=1000)
+    run_parallel_sorted(c4, 'bounded.c04', 'check_wrap_whole', whole_cases(rng, ml, 2000 if quick else 50000), chunk=1000)
     c4.done()
 
-    c5 = Clause('text-unicode-line-separators', 'F',
+    c5 = Clause('text-unicode-line-separators', 'B',
                 'the 8 characters other than \\r and \\n that str.splitlines() treats as line boundaries, as payload a<ch>b',
                 'code points %r in every inline / attribute template and in wrap templates li* and attr-ph' % ([hex(c) for c in LINEBREAK_CODES],),
                 'a case is (template, code point)', exhaustive=True)
     cases5 = [(t, c) for c in LINEBREAK_CODES for t in list(INLINE_TEMPLATES) + list(ATTR_TEMPLATES) + ['li*', 'attr-ph']]
-    run_parallel(c5, 'bounded.c04', 'check_linebreak_chars', cases5, chunk=20)
+    run_parallel_sorted(c5, 'bounded.c04', 'check_linebreak_chars', cases5, chunk=20)
     c5.done()
     return [c1, c2, c3, c4, c5]
